@@ -119,6 +119,22 @@ impl RefGrammar {
     pub fn to_yacc(&self) -> String {
         let mut s = String::new();
         writeln!(s, "%start {}", self.rule_name(0)).ok();
+        // tokens that no production mentions still belong to the grammar: declare them
+        let mut used = vec![false; self.ntoks];
+        for p in self.rules.iter().flatten() {
+            for sym in p {
+                if let Sym::T(t) = sym {
+                    used[*t] = true;
+                }
+            }
+        }
+        if used.iter().any(|u| !*u) {
+            write!(s, "%token").ok();
+            for t in (0..self.ntoks).filter(|t| !used[*t]) {
+                write!(s, " '{}'", self.tok_name(t)).ok();
+            }
+            writeln!(s).ok();
+        }
         if !self.avoid_insert.is_empty() {
             write!(s, "%avoid_insert").ok();
             for t in &self.avoid_insert {
@@ -875,6 +891,122 @@ pub fn family_chains() -> Vec<RefGrammar> {
             let mut rules2 = out.last().unwrap().rules.clone();
             rules2[phys(1)] = vec![vec![T(2), R(phys(2)), T(0)], vec![T(2), T(1)]];
             out.push(g(3, rules2));
+        }
+    }
+    out
+}
+
+// ------------------------------------------------------------------------------------------------
+// F-wide: small grammars moved to high token / rule indices
+// ------------------------------------------------------------------------------------------------
+
+/// `base` with `ptoks` padding tokens numbered before its own tokens and `max(prules, 1)` padding
+/// rules numbered before its own rules. The first padding rule mentions every padding token in
+/// order (the generator numbers tokens by first mention, so they come first); the others are
+/// `Pi: 'p(i mod ptoks)'`. All padding rules are unreachable from the new start rule
+/// `S: <base start>`. The language is the base grammar's; every index-keyed bit vector of the
+/// generator (lookaheads, FIRST / FOLLOW, closure work lists, action rows) now has its interesting
+/// bits beyond a word boundary.
+pub fn padded(base: &RefGrammar, ptoks: usize, prules: usize) -> RefGrammar {
+    assert!(base.rule_names.is_none() && base.tok_names.is_none());
+    let prules = prules.max(1);
+    let rshift = 1 + prules;
+    let sh = |s: &Sym| match s {
+        Sym::R(x) => Sym::R(x + rshift),
+        Sym::T(t) => Sym::T(t + ptoks),
+    };
+    let mut rules: Vec<Vec<Vec<Sym>>> = vec![vec![vec![Sym::R(rshift)]]];
+    rules.push(vec![(0..ptoks).map(Sym::T).collect()]);
+    for i in 1..prules {
+        rules.push(vec![if ptoks > 0 { vec![Sym::T(i % ptoks)] } else { vec![] }]);
+    }
+    for ps in &base.rules {
+        rules.push(ps.iter().map(|p| p.iter().map(sh).collect()).collect());
+    }
+    let mut out = RefGrammar::new(base.ntoks + ptoks, rules);
+    for (a, ts) in &base.precs {
+        out.precs.push((*a, ts.iter().map(|t| t + ptoks).collect()));
+    }
+    out.prod_prec = base.prod_prec.iter().map(|&(r, i, t)| (r + rshift, i, t + ptoks)).collect();
+    out.avoid_insert = base.avoid_insert.iter().map(|t| t + ptoks).collect();
+    out
+}
+
+/// The tokens worth feeding to a parser for `g`: every token that occurs in a production, or - when
+/// the grammar has more than 8 tokens - every token of a rule reachable from the start rule plus the
+/// lowest and the highest numbered of the others (all tokens that no reachable production mentions
+/// are rejected in every state; two representatives at the ends of the index range stand for them).
+pub fn input_alphabet(g: &RefGrammar) -> Vec<usize> {
+    if g.ntoks <= 8 {
+        return (0..g.ntoks).collect();
+    }
+    let mut reach = vec![false; g.nrules()];
+    let mut todo = vec![0usize];
+    reach[0] = true;
+    while let Some(r) = todo.pop() {
+        for p in &g.rules[r] {
+            for s in p {
+                if let Sym::R(x) = s {
+                    if !reach[*x] {
+                        reach[*x] = true;
+                        todo.push(*x);
+                    }
+                }
+            }
+        }
+    }
+    let mut used = vec![false; g.ntoks];
+    for (r, ps) in g.rules.iter().enumerate() {
+        if reach[r] {
+            for p in ps {
+                for s in p {
+                    if let Sym::T(t) = s {
+                        used[*t] = true;
+                    }
+                }
+            }
+        }
+    }
+    let mut out: Vec<usize> = (0..g.ntoks).filter(|t| used[*t]).collect();
+    let others: Vec<usize> = (0..g.ntoks).filter(|t| !used[*t]).collect();
+    if let Some(f) = others.first() {
+        out.push(*f);
+    }
+    if others.len() > 1 {
+        out.push(*others.last().unwrap());
+    }
+    out.sort();
+    out
+}
+
+/// Every word of length <= n over `alpha`.
+pub fn inputs_over(alpha: &[usize], n: usize) -> Vec<Vec<usize>> {
+    all_inputs(alpha.len(), n).into_iter().map(|w| w.into_iter().map(|i| alpha[i]).collect()).collect()
+}
+
+/// F-wide: the LR(1)-not-LALR(1) seeds, operator skeletons with precedence, empty-production and
+/// chain grammars, each padded so that its tokens start at index 62, 63, 64 or 127 and its rules at
+/// index 2, 63, 64 or 65.
+pub fn family_wide() -> Vec<RefGrammar> {
+    let mut bases: Vec<RefGrammar> = vec![];
+    let l = family_lalr();
+    bases.extend(l.iter().rev().take(3).cloned()); // the full counter-example and its neighbours
+    bases.extend(family_lalr2().into_iter().rev().take(2));
+    for e in family_expr().into_iter().take(4) {
+        bases.extend(e.prec_variants(2, false).into_iter().rev().take(2));
+        bases.push(e);
+    }
+    bases.extend(family_empty().into_iter().take(4));
+    bases.extend(family_empty2().into_iter().take(2));
+    bases.extend(family_chains().into_iter().take(4));
+    bases.extend(family_ternary().into_iter().take(2));
+    let mut out = vec![];
+    for b in &bases {
+        for (pt, pr) in [(62usize, 0usize), (63, 62), (64, 63), (61, 64), (120, 0)] {
+            if b.ntoks + pt + 1 > 127 {
+                continue;
+            }
+            out.push(padded(b, pt, pr));
         }
     }
     out
